@@ -28,6 +28,8 @@ type mitem struct {
 }
 
 var burstSizes = []int{1, 2, 3, 7, 1023, 1024, 1025, 1535, 1536, 1537, 2559, 2560, 2561, 3000, 4863, 4864, 4865}
+// partial drains: the reader ends up somewhere inside a segment, not only at its boundaries
+var deqSizes = []int{1, 2, 3, 7, 100, 255, 256, 300, 400, 511, 512, 700, 1023, 1024, 1025, 1300, 1536, 2000, 2560, 3000, 4864}
 var prioVals = []int{0, 0, 1, 1, 2, -1, 5, math.MinInt, math.MaxInt, math.MinInt + 1, math.MaxInt - 1}
 
 func genOps(t *rapid.T, prio bool, huge bool) []qop {
@@ -47,7 +49,7 @@ func genOps(t *rapid.T, prio bool, huge bool) []qop {
 		case k < 65:
 			ops = append(ops, qop{Op: "deq"})
 		case k < 78:
-			ops = append(ops, qop{Op: "deqmany", N: rapid.SampledFrom(burstSizes).Draw(t, "deqn")})
+			ops = append(ops, qop{Op: "deqmany", N: rapid.SampledFrom(deqSizes).Draw(t, "deqn")})
 		case k < 86:
 			ops = append(ops, qop{Op: "len"})
 		case k < 92:
